@@ -187,4 +187,11 @@ namespace Covfie.Imp
 `RImp.reval (.get a ix)` rest on exactly this. -/
 def contextSexp : String :=
   "(context array-at-mut array-at-const array-index-mut array-index-const array-data matrix-elem-const matrix-elem-mut matrix-data vector-elem-const vector-elem-mut nd-size)"
+/-- The BMI2 path of `morton::calculate_index` is a template metaprogram; `harness/cxx2ctx.py` recognises it sentence by sentence:
+the mask of coordinate `I` has the bits `J < 8·sizeof(Ox)` with `J mod N = 0`, shifted left by `I` (model: `Covfie.mortonMask N I`);
+the index is the OR over the `N` coordinates of `_pdep_u64(c[I], mask_I)` (model: `Covfie.mortonPdep`), selected iff the build has
+BMI2 and `use_bmi2` is true. `Covfie.C14.morton_bmi2_eq_portable` proves that model equal to the portable loop, whose text *is*
+translated; `_pdep_u64` itself is hardware (trusted, exercised). -/
+def pdepSexp : String :=
+  "(pdep shiftl mask-bits-J-mod-N mask-over-all-bits-shifted-by-I or-of-pdep over-N-coordinates selected-iff-bmi2)"
 end Covfie.Imp
